@@ -9,7 +9,10 @@ EXTENDS Naturals, Sequences, FiniteSets, TLC
 CONSTANTS RelayClasses
 
 Algs == {"unset", "rsa-sha1", "rsa-sha256", "rsa-sha384", "rsa-sha512", "ecdsa-sha256"}
-KeyCfgs == {"encField", "encSetter", "signField", "signSetter"}
+\* signFieldEncSetter: the signing key sits in the deprecated field while the encryption key came through the setter
+\* (the signing key still signs)
+KeyCfgs == {"encField", "encSetter", "signField", "signSetter", "signFieldEncSetter"}
+ExpSigner(x) == IF x.keycfg = "signFieldEncSetter" THEN "signField" ELSE x.keycfg
 \* keytype: an ECDSA key can only be supplied through a setter (the deprecated fields are RSA-only)
 KeyOK(x) == x.keytype = "ec" => x.keycfg \in {"encSetter", "signSetter"}
 
@@ -48,7 +51,7 @@ C14_OK(cfg, in, o) ==
       /\ o.built /\ o.endpoint_ok /\ o.params_ok /\ o.request_ok
       /\ (o.relay_present <=> in.relay # "empty")
       /\ (o.relay_present => o.relay_ok)
-      /\ (SignApplies(in) => (o.sig_present /\ o.sigalg = ExpAlg(in) /\ o.sig_ok /\ o.verified_by = in.keycfg))
+      /\ (SignApplies(in) => (o.sig_present /\ o.sigalg = ExpAlg(in) /\ o.sig_ok /\ o.verified_by = ExpSigner(in)))
       /\ (~SignApplies(in) => ~o.sig_present)
 
 \* o (post): [built, forms, action_ok, field_count, field_ok, relay_present, relay_ok, script_submits, skeleton_ok]
